@@ -305,6 +305,9 @@ C("_handle_positive_ack_procedures", arg_types=SELF, props=("C04",), result=None
   modular=False)
 
 
+CONTRACTS[-1].inline_callees = {"DestHandler.__non_idle_fsm", "DestHandler.__idle_fsm"}  # the recursive state_machine() call
+
+
 # ==============================================================================================
 # C01: DATA_COMPLETE is only ever established under the checksum guard
 # ==============================================================================================
@@ -1376,6 +1379,9 @@ C("_handle_eof_without_previous_metadata", arg_types={**SELF, "eof_pdu": T.Obj(E
           Implies_(o.eof_pdu.file_size > 0, z3.ForAll([TR.X], TR.view(trk(n.self), TR.X) == z3.And(0 <= TR.X, TR.X < o.eof_pdu.file_size))),
           Implies_(o.eof_pdu.file_size == 0, z3.ForAll([TR.X], TR.view(trk(n.self), TR.X) == TR.view(trk(o.self), TR.X)))), ("C06",)),
       Clause("C15.eof_recv_indication", lambda o, n, r: _eofwm_ind_ok(o, n), ("C15",)),
+      # C12: an EOF (cancel) finishes the transaction with the EOF's condition -- also when the Metadata PDU is missing
+      Clause("C12.eof_cancel_before_metadata", lambda o, n, r: Implies_(ne(o.eof_pdu.condition_code, CC.NO_ERROR), And_(
+          eq(n.self._params.completion_disposition, CANCELED), Eq_(_fpar(n.self).condition_code, o.eof_pdu.condition_code))), ("C12",)),
       Clause("C03.eof_is_acknowledged", lambda o, n, r: _eof_ack_emitted(o, n), ("C03", "C02")),
       Clause("C03.next_step_sends_the_eof_ack", lambda o, n, r: And_(
           step_is(n.self, STEP.SENDING_EOF_ACK_PDU), n.self._pdus_to_be_sent.length() == o.self._pdus_to_be_sent.length() + 1), ("C03", "C02")),
@@ -1591,6 +1597,7 @@ C("_handle_waiting_for_finished_ack", arg_types={**SELF, "packet_holder": T.Obj(
           if not _hp_is(o, AckPdu) else True), ("C04",)),
   ] + inv_clauses(("C04",)),
   effects={"timer", "fault_cb", "user", "vfs"}, modular=True)
+CONTRACTS[-1].inline_callees = {"DestHandler.__non_idle_fsm", "DestHandler.__idle_fsm"}  # the recursive state_machine() call
 CONTRACTS[-1].cost_hint = 3
 
 
@@ -1598,9 +1605,9 @@ CONTRACTS[-1].cost_hint = 3
 # transaction start at the receiver (C11 fresh state, C02/C03 first packet), idle FSM
 # ==============================================================================================
 def _first_packet_setup(interp, roots):
-    roots["packet"] = interp.fresh_value(T.OneOf([_FD, MetadataPdu, EofPdu]), "packet")
+    roots["packet"] = interp.fresh_value(T.OneOf([_FD, MetadataPdu, EofPdu], allow_none=True), "packet")
     p = roots["packet"]
-    if p.cls is MetadataPdu:
+    if p is not None and p.cls is MetadataPdu:
         for k in ("source_file_name", "dest_file_name"):
             p.f[k] = interp.force(p.f[k])
 
@@ -1637,27 +1644,28 @@ def _idle_started_ok(o, n):
 def _idle_contract():
     c = C("__idle_fsm", arg_types={**SELF, "packet": T.Opaque}, setup=_first_packet_setup, props=("C11", "C02", "C03", "C10"),
           result=None,
-          requires=REQ_INV + REQ_TRK + DEFAULT + [("idle_and_admitted", _idle_pre),
+          requires=REQ_INV + DEFAULT + [("idle_and_admitted", _idle_pre),
                     ("sender_known", lambda o: True if o.packet is None else cfg_known(to_z3_int(o.packet.pdu_conf.source_entity_id.value)))],
           modifies=IDLE_MOD,
+          cond_frames=[("C10.no_packet_no_effect", lambda o: o.packet is None, [], {"silent": True})],
           ensures=[
-              Clause("C11.dest.transaction_starts_on_fresh_state", lambda o, n, r: Implies_(ne(n.self.states.state, IDLE),
-                     _idle_started_ok(o, n)), ("C11", "C02")),
+              Clause("C11.dest.transaction_starts_on_fresh_state", lambda o, n, r: True if o.packet is None else Implies_(
+                  ne(n.self.states.state, IDLE), _idle_started_ok(o, n)), ("C11", "C02")),
               Clause("C02.metadata_first_starts_reception", lambda o, n, r: (
                   Implies_(ne(n.self.states.state, IDLE), And_(
                       step_is(n.self, STEP.RECEIVING_FILE_DATA, STEP.TRANSFER_COMPLETION),
                       Not_(B(_ap(n.self).metadata_missing)), trk(n.self).n == 0,
                       n.self._params.fp.progress == 0, len(emitted(n)) == 0))
-                  if o.packet.cls is MetadataPdu else True), ("C02", "C05")),
+                  if (o.packet is not None and o.packet.cls is MetadataPdu) else True), ("C02", "C05")),
               Clause("C03.data_or_eof_first_waits_for_metadata", lambda o, n, r: (
                   And_(B(_ap(n.self).metadata_missing), Implies_(o.packet.cls is _FD, step_is(n.self, STEP.WAITING_FOR_METADATA)),
                        Implies_(o.packet.cls is EofPdu, step_is(n.self, STEP.SENDING_EOF_ACK_PDU)),
                        len(vfs_ops(n)) == 0)
-                  if o.packet.cls is not MetadataPdu else True), ("C03", "C05", "C06")),
-              Clause("inv.tracker", lambda o, n, r: tracker_inv(n.self), ("C06", "C11")),
+                  if (o.packet is not None and o.packet.cls is not MetadataPdu) else True), ("C03", "C05", "C06")),
+              Clause("inv.tracker", lambda o, n, r: Implies_(ne(n.self.states.state, IDLE), tracker_inv(n.self)), ("C06", "C11")),
           ] + inv_clauses(("C11",)),
-          raises=[RaiseClause("vfs.truncate_race", FileNotFoundError, when=lambda o: o.packet.cls is MetadataPdu, props=("C10",),
-                              modifies=IDLE_MOD)],
+          raises=[RaiseClause("vfs.truncate_race", FileNotFoundError, when=lambda o: o.packet is not None and o.packet.cls is MetadataPdu,
+                              props=("C10",), modifies=IDLE_MOD)],
           effects={"vfs", "user", "fault_cb"}, modular=True)
     return c
 
@@ -1673,8 +1681,7 @@ def _d_admitted(o):
     p, h = o.packet, o.self
     if p is None:
         return True
-    return And_(pdu_wf(p), eq(p.pdu_conf.direction, Direction.TOWARDS_RECEIVER),
-                p.cls in (_FD, MetadataPdu, EofPdu, AckPdu, PromptPdu),
+    return And_(pdu_wf(p), p.cls in (_FD, MetadataPdu, EofPdu, AckPdu, PromptPdu),
                 Implies_(eq(mode(h), UNACK), p.cls not in (AckPdu, PromptPdu)),
                 ((p.dest_file_name is None) == (p.source_file_name is None)) if p.cls is MetadataPdu else True)
 
@@ -1827,3 +1834,81 @@ def _strengthen(c):
 for _c in CONTRACTS:
     if any(_c.fq.endswith("DestHandler." + nm) for nm in _FSM_SUMMARISED) and _c.instance is None:
         _strengthen(_c)
+
+
+# ==============================================================================================
+# public entry points of the receiver
+# ==============================================================================================
+def _dfsm_union():
+    """summary of __non_idle_fsm for its caller: the sequential composition of the statement slices above, all of which
+    assume and re-establish the mid-condition (Hoare sequencing; no separate proof needed)"""
+    c = C("__non_idle_fsm", instance="SEQUENCE", arg_types={**SELF, "packet": T.Opaque}, props=(), result=None,
+          requires=[("MidCondition", lambda o: mid_condition(o.self))] + DEFAULT + [
+              ("busy", lambda o: ne(o.self.states.state, IDLE)), ("admitted", _d_admitted)],
+          modifies=DFSM_MOD, ensures=[Clause("mid_condition", lambda o, n, r: mid_condition(n.self), ())],
+          raises=[
+              # finding F5a: may also be raised for PDUs queued earlier in the same call
+              RaiseClause("unretrieved", D.UnretrievedPdusToBeSent, modifies=DFSM_MOD,
+                          when=lambda o: Or_(o.self._pdus_to_be_sent.length() > 0, eq(mode(o.self), ACK))),
+              RaiseClause("F5b.tracker_value_error_leaks", ValueError, when=lambda o: o.packet is not None and o.packet.cls is _FD,
+                          modifies=DFSM_MOD),
+              RaiseClause("vfs.truncate_race", FileNotFoundError, when=lambda o: o.packet is not None and o.packet.cls is MetadataPdu,
+                          modifies=DFSM_MOD),
+          ],
+          effects={"vfs", "user", "timer", "fault_cb"}, modular=True, trusted=True,
+          notes="sequential composition of the slices of __non_idle_fsm")
+    c.call_default = True
+    c.assumed_requires = set(c.assumed_requires)
+    return c
+
+
+_dfsm_union()
+
+
+def _dsm_setup(interp, roots):
+    roots["packet"] = interp.fresh_value(ANY_PDU, "packet")
+    p = roots["packet"]
+    if p is not None and p.cls is MetadataPdu:
+        for k in ("source_file_name", "dest_file_name"):
+            p.f[k] = interp.force(p.f[k])
+
+
+DEST_ADMISSION_EXC = [D.InvalidPduDirection, D.InvalidDestinationId, D.NoRemoteEntityCfgFound, D.InvalidPduForDestHandler,
+                      D.PduIgnoredForDest]
+DSM_MOD = sorted(set(DFSM_MOD + IDLE_MOD))
+
+C("state_machine", arg_types={**SELF, "packet": T.Opaque}, setup=_dsm_setup, props=("C10", "C16", "C11", "C05"), result=T.Opaque,
+  requires=[("MidCondition", lambda o: mid_condition(o.self))] + DEFAULT + [
+      ("pdu_wf", lambda o: pdu_wf(o.packet)),
+      ("names_together", lambda o: ((o.packet.dest_file_name is None) == (o.packet.source_file_name is None))
+       if (o.packet is not None and o.packet.cls is MetadataPdu) else True),
+      ("idle_handler_was_drained", lambda o: Implies_(eq(o.self.states.state, IDLE), qempty(o.self)))],
+  modifies=DSM_MOD,
+  cond_frames=[("C10.idle_call_without_packet_does_nothing", lambda o: And_(eq(o.self.states.state, IDLE), o.packet is None), [],
+                {"silent": True})],
+  ensures=[
+      Clause("mid_condition", lambda o, n, r: mid_condition(n.self), ("C10", "C11")),
+      Clause("C10.returns_states", lambda o, n, r: r.cls is D.FsmResult and r.states.oid == o.self.states.oid, ("C10",)),
+  ],
+  raises=[RaiseClause(f"C10.rejected_pdu_changes_nothing.{e.__name__}", e, when=lambda o: o.packet is not None, props=("C10", "C20"),
+                      modifies=[], post=lambda o, n: len([e for e in n.trace if e["kind"] not in ("opaque_call", "vfs")]) == 0)
+          for e in DEST_ADMISSION_EXC] + [
+      RaiseClause("C10.unretrieved_truthful", D.UnretrievedPdusToBeSent,
+                  when=lambda o: And_(ne(o.self.states.state, IDLE), o.self._pdus_to_be_sent.length() > 0), props=("C10",), modifies=DSM_MOD),
+      RaiseClause("vfs.truncate_race", FileNotFoundError, when=lambda o: o.packet is not None and o.packet.cls is MetadataPdu,
+                  props=("C10",), modifies=DSM_MOD),
+  ],
+  effects={"vfs", "user", "timer", "fault_cb"}, modular=False)
+CONTRACTS[-1].contract_callees = {"DestHandler._check_inserted_packet", "DestHandler.__idle_fsm", "DestHandler.__non_idle_fsm"}
+CONTRACTS[-1].cost_hint = 4
+
+
+C("get_next_packet", arg_types=SELF, props=("C10",), result=T.Opaque,
+  requires=REQ_INV, modifies=["self._pdus_to_be_sent", "self.states._num_packets_ready"],
+  ensures=[
+      Clause("C10.pops_one_or_none", lambda o, n, r: And_(
+          Implies_(o.self._pdus_to_be_sent.length() == 0, And_(r is None, n.self._pdus_to_be_sent.length() == 0)),
+          Implies_(o.self._pdus_to_be_sent.length() > 0, And_(
+              r is not None, n.self._pdus_to_be_sent.length() == o.self._pdus_to_be_sent.length() - 1))), ("C10",)),
+  ] + inv_clauses(("C10",)),
+  effects=set(), modular=False)
